@@ -1,7 +1,7 @@
 /-
   Proofs.C13ExtLoop — the upsert branch of `applyUpdateColl`, opened up: when nothing matches, a
-  successful call went through `expandDots`, `discardOps`, `applyUpdate … wasInsert=true` and
-  `insertDoc`, and the appended document is the normalised result of that update (with a
+  successful call went through `upsertSeed` (`discardOps`, then `expandDots`), `applyUpdate …
+  wasInsert=true` and `insertDoc`, and the appended document is the normalised result of that update (with a
   generated `_id` when the update removed it).
 -/
 import Proofs.C13Loop
@@ -34,29 +34,19 @@ theorem insert_fresh_doc (now : Int) (c c' : Coll) (bf : Fields) (id : Val) (hn 
     obtain ⟨h1, _, h3⟩ := insertCore_fresh now { c with nextOid := c.nextOid + 1 } _ c' id hn hh' h
     exact ⟨by rw [h3, patch_doc], h1⟩
 
-/-- the spec handed to `applyUpdate` by the upsert branch -/
-def upsertSpec (spec : Val) (ss expanded : Fields) : Val :=
-  match dget "_id" ss, dget "_id" expanded with
-  | some (.doc _), some (.doc e) => Val.doc (dset "_id" (.doc e) ss)
-  | _, _ => spec
-
-/-- the upsert branch of `afterLoop`, with the spec named -/
+/-- the upsert branch of `afterLoop`, with the seed named -/
 theorem afterLoop_upsert_eq (now : Int) (spec document nowV : Val) (ss dfs : Fields)
     (c3 : Coll) (up : Nat) :
     afterLoop now spec document nowV ss dfs true c3 (.ok (0, up)) =
       match (do
-          let expanded ← expandDots (dset "_id" (upsertIdv ss dfs c3).1 ss)
-          applyUpdate (upsertSpec spec ss expanded) document nowV true
-            (discardOps (.doc expanded)).1) with
+          let seed ← upsertSeed ss (upsertIdv ss dfs c3).1
+          applyUpdate spec document nowV true seed) with
       | .error e => ((upsertIdv ss dfs c3).2, .error e)
       | .ok built =>
         match insertDoc now (upsertIdv ss dfs c3).2 built with
         | .error e => ((upsertIdv ss dfs c3).2.markStored
             (insertStored now (upsertIdv ss dfs c3).2 built), .error e)
-        | .ok (c5, newId) =>
-          ((match storeKey newId with
-            | .ok k => { c5 with od := c5.od ++ [k] }
-            | .error _ => c5), .ok ⟨1, 0, some newId, false⟩) := by
+        | .ok (c5, newId) => (c5, .ok ⟨1, 0, some newId, false⟩) := by
   unfold afterLoop
   simp only [Bool.not_true, Bool.false_or, Nat.lt_irrefl, gt_iff_lt, decide_false,
     Bool.false_eq_true, if_false]
@@ -66,10 +56,9 @@ theorem afterLoop_upsert_eq (now : Int) (spec document nowV : Val) (ss dfs : Fie
 theorem afterLoop_built (now : Int) (spec document nowV : Val) (ss dfs : Fields)
     (c3 c' : Coll) (up : Nat) (r : UpdateResult) (hn : c3.ttlIndexes = [])
     (h : afterLoop now spec document nowV ss dfs true c3 (.ok (0, up)) = (c', .ok r)) :
-    ∃ expanded bf id,
-      expandDots (dset "_id" (upsertIdv ss dfs c3).1 ss) = .ok expanded ∧
-      applyUpdate (upsertSpec spec ss expanded) document nowV true (discardOps (.doc expanded)).1
-        = .ok (.doc bf) ∧
+    ∃ seed bf id,
+      upsertSeed ss (upsertIdv ss dfs c3).1 = .ok seed ∧
+      applyUpdate spec document nowV true seed = .ok (.doc bf) ∧
       c'.docs = c3.docs ++ [(id, .doc (patchFields (withId (upsertIdv ss dfs c3).2 bf)))] ∧
       dget "_id" (patchFields (withId (upsertIdv ss dfs c3).2 bf)) = some id ∧
       r.upserted = some id := by
@@ -78,12 +67,11 @@ theorem afterLoop_built (now : Int) (spec document nowV : Val) (ss dfs : Fields)
   have ht := upsertIdv_ttl ss dfs c3
   generalize upsertIdv ss dfs c3 = ic at h hd ht
   simp only [bind, Except.bind] at h
-  cases he : expandDots (dset "_id" ic.1 ss) with
+  cases he : upsertSeed ss ic.1 with
   | error e => simp only [he] at h; cases h
-  | ok expanded =>
+  | ok seed =>
     simp only [he] at h
-    cases hb : applyUpdate (upsertSpec spec ss expanded) document nowV true
-        (discardOps (Val.doc expanded)).1 with
+    cases hb : applyUpdate spec document nowV true seed with
     | error e => simp only [hb] at h; cases h
     | ok built =>
       simp only [hb] at h
@@ -96,9 +84,8 @@ theorem afterLoop_built (now : Int) (spec document nowV : Val) (ss dfs : Fields)
         cases built with
         | doc bf =>
           obtain ⟨h1, h2⟩ := insert_fresh_doc now ic.2 c5 bf newId (ht.trans hn) hi
-          refine ⟨expanded, bf, newId, rfl, hb, ?_, h2, rfl⟩
+          refine ⟨seed, bf, newId, rfl, hb, ?_, h2, rfl⟩
           rw [← hc, ← hd, ← h1]
-          split <;> rfl
         | _ => simp [insertDoc] at hi
 
 /-- a successful upsert call whose filter selects nothing went through the upsert branch, on the
